@@ -1,6 +1,7 @@
 package main
 
 import (
+	"go/types"
 	"fmt"
 	"os"
 	"go/token"
@@ -53,12 +54,25 @@ func c01R1(c *Ctx, r *Report) {
 		return
 	}
 	// the cell channelsSince
+	// the iterated channel set: the cell that is ranged over to obtain the key of each per-channel cache (identified by that
+	// role, not by its name)
 	var cell *ssa.Alloc
-	EachInstr(lit, false, func(in ssa.Instruction) {
-		if al, ok := in.(*ssa.Alloc); ok && al.Comment == "channelsSince" {
-			cell = al
+	for _, call := range c.Calls(lit, false, nameHasSuffix(".getSingleChannelCache")) {
+		for _, x := range call.Common().Args {
+			DependsOn(x, func(y ssa.Value) bool {
+				if nx, isNext := y.(*ssa.Next); isNext {
+					if rg, isRange := nx.Iter.(*ssa.Range); isRange {
+						if ad, isLoad := loadOf(rg.X); isLoad {
+							if al, isAlloc := rootAddr(ad).(*ssa.Alloc); isAlloc {
+								cell = al
+							}
+						}
+					}
+				}
+				return false
+			})
 		}
-	})
+	}
 	isFilter := c.ResultOf(0, nameHasSuffix(".FilterToAvailableCollectionChannels"))
 	isAll := c.ResultOf(0, nameIs("channels.AtSequence"))
 	// user == nil edges
@@ -156,25 +170,40 @@ func c01R2R3(c *Ctx, r *Report) {
 		}
 	})
 	// bound: cond comparing currentCachedSequence with entry.Seq.Seq
-	var ccs *ssa.Alloc
+	// the bound: cells assigned from GetHighCacheSequence (identified by that role, not by name)
+	ccsCells := map[ssa.Value]bool{}
 	EachInstr(lit, false, func(in ssa.Instruction) {
-		if al, ok := in.(*ssa.Alloc); ok && al.Comment == "currentCachedSequence" {
-			ccs = al
+		if st, ok := in.(*ssa.Store); ok && c.IsCallTo(st.Val, nameHasSuffix(".GetHighCacheSequence")) {
+			if al, ok := rootAddr(st.Addr).(*ssa.Alloc); ok {
+				ccsCells[al] = true
+			}
 		}
 	})
-	isCCS := func(v ssa.Value) bool {
+	var isCCSd func(v ssa.Value, depth int) bool
+	isCCSd = func(v ssa.Value, depth int) bool {
 		v2 := unwrapLoadFree(v)
 		if c.IsCallTo(v2, nameHasSuffix(".GetHighCacheSequence")) {
 			return true
 		}
-		if ad, ok := loadOf(v); ok && ccs != nil && rootAddr(ad) == ssa.Value(ccs) {
+		if ad, ok := loadOf(v); ok && ccsCells[rootAddr(ad)] {
 			return true
 		}
-		if p, ok := v.(*ssa.Phi); ok && p.Comment == "currentCachedSequence" {
-			return true
+		if p, ok := v.(*ssa.Phi); ok && depth < 3 {
+			any := false
+			for _, e := range p.Edges {
+				if k, isK := constInt(e); isK && k == 0 {
+					continue
+				}
+				if !isCCSd(e, depth+1) {
+					return false
+				}
+				any = true
+			}
+			return any
 		}
 		return false
 	}
+	isCCS := func(v ssa.Value) bool { return isCCSd(v, 0) }
 	within := EdgesWhere(lit, func(cond ssa.Value) (bool, bool) {
 		b, ok := cond.(*ssa.BinOp)
 		if !ok {
@@ -206,9 +235,6 @@ func c01R2R3(c *Ctx, r *Report) {
 	validRev := EdgesWhere(lit, func(cond ssa.Value) (bool, bool) {
 		v, pos := BoolTest(cond)
 		if p, ok := v.(*ssa.Phi); ok {
-			if p.Comment == "isValidRevocation" {
-				return true, pos
-			}
 			// the && of (Revoked == true) and (TriggeredBy <= cached high sequence)
 			for _, e := range p.Edges {
 				if b, ok := e.(*ssa.BinOp); ok && b.Op == token.LEQ && isCCS(b.Y) {
@@ -235,18 +261,15 @@ func c01R2R3(c *Ctx, r *Report) {
 		r.Check("C01-R2", fmt.Sprintf("fn=SimpleMultiChangesFeed$worker entry-send #%d only-if=seq<=cached-high-sequence|valid-revocation", i+1), c.Pos(s.Pos()), ok, "entries beyond the stable cached sequence are held back", "an entry later than the high cached sequence captured at the start of the iteration can be sent: a sequence not yet contiguous in the cache could be skipped by the client's next since")
 	}
 	// bound provenance
-	okProv := false
-	if ccs != nil {
-		okProv = true
-		for _, st := range storesInto(ccs) {
+	okProv := len(c.Calls(lit, false, nameHasSuffix(".GetHighCacheSequence"))) > 0
+	for cl := range ccsCells {
+		for _, st := range storesInto(cl) {
 			if !c.IsCallTo(st.Val, nameHasSuffix(".GetHighCacheSequence")) {
 				if k, isK := constInt(st.Val); !(isK && k == 0) {
 					okProv = false
 				}
 			}
 		}
-	} else {
-		okProv = len(c.Calls(lit, false, nameHasSuffix(".GetHighCacheSequence"))) > 0
 	}
 	r.Check("C01-R2", "fn=SimpleMultiChangesFeed$worker bound=GetHighCacheSequence", c.Pos(lit.Pos()), okProv, "the bound is only ever the channel cache's high sequence", "the send bound is assigned from something other than the cache's high sequence")
 
@@ -276,7 +299,7 @@ func c01R2R3(c *Ctx, r *Report) {
 			return
 		}
 		root := rootAddr(fa.X)
-		if al, ok := root.(*ssa.Alloc); !ok || al.Comment != "options" {
+		if !isRequestOptionsCell(root, lit) {
 			return
 		}
 		k++
@@ -306,7 +329,7 @@ func c01RestoreBeforeWait(c *Ctx, r *Report, lit *ssa.Function, rule string) {
 		if !ok || structField(inner.X.Type(), inner.Field) != sinceF {
 			return
 		}
-		if al, ok := rootAddr(inner.X).(*ssa.Alloc); !ok || al.Comment != "options" {
+		if !isRequestOptionsCell(rootAddr(inner.X), lit) {
 			return
 		}
 		if k, isK := constInt(st.Val); isK && k == 0 {
@@ -325,15 +348,43 @@ func c01RestoreBeforeWait(c *Ctx, r *Report, lit *ssa.Function, rule string) {
 		return
 	}
 	// edges on which late-sequence feeds are in use
-	late := EdgesWhere(lit, func(cond ssa.Value) (bool, bool) {
-		v, pos := BoolTest(cond)
-		if p, ok := v.(*ssa.Phi); ok && p.Comment == "useLateSequenceFeeds" {
-			return true, pos
+	// the 'late-sequence feeds in use' flag: the boolean whose true edge guards the creation of a late feed (identified by that role)
+	lateFlag := map[ssa.Value]bool{}
+	lateCalls := c.Calls(lit, false, nameHasSuffix(".getLateFeed", ".newLateSequenceFeed"))
+	for _, i := range Ifs(lit) {
+		v, pos := BoolTest(i.Cond)
+		if v == nil {
+			continue
+		}
+		succ := 0
+		if !pos {
+			succ = 1
+		}
+		guards := false
+		for _, lc := range lateCalls {
+			if DominatedBy(lit, lc, NewAvoid().AddEdge(Edge{i.Block(), succ})) {
+				guards = true
+			}
+		}
+		if !guards {
+			continue
 		}
 		if ad, ok := loadOf(v); ok {
-			if al, ok := rootAddr(ad).(*ssa.Alloc); ok && al.Comment == "useLateSequenceFeeds" {
-				return true, pos
-			}
+			lateFlag[rootAddr(ad)] = true
+		} else {
+			lateFlag[v] = true
+		}
+	}
+	late := EdgesWhere(lit, func(cond ssa.Value) (bool, bool) {
+		v, pos := BoolTest(cond)
+		if v == nil {
+			return false, false
+		}
+		if lateFlag[v] {
+			return true, pos
+		}
+		if ad, ok := loadOf(v); ok && lateFlag[rootAddr(ad)] {
+			return true, pos
 		}
 		return false, false
 	})
@@ -529,4 +580,15 @@ func c01FlowsToNotifyViaSet(c *Ctx, fn *ssa.Function, res *ssa.Call) bool {
 		}
 	})
 	return found
+}
+
+// isRequestOptionsCell: root is the feed request's own ChangesOptions variable — a cell of that type that belongs to the function
+// enclosing the worker literal (captured), as opposed to the per-channel copies the worker makes locally.
+func isRequestOptionsCell(root ssa.Value, lit *ssa.Function) bool {
+	al, ok := root.(*ssa.Alloc)
+	if !ok {
+		return false
+	}
+	pt, ok := al.Type().(*types.Pointer)
+	return ok && namedOf(pt.Elem()) == "ChangesOptions" && al.Parent() == TopLevel(lit) && TopLevel(lit) != lit
 }
